@@ -172,8 +172,8 @@ PROPS = {
 }
 
 AEAD_RULE = ("AES-GCM{16,32}, AES-CTR-HMAC{aes 16,32}×{iv 12..16}×{SHA1..512}×{tag 10..digest}×{hmac key 16..130}, AES-GCM-SIV{16,32}, "
-             "ChaCha20-Poly1305, XChaCha20-Poly1305, XAES-256-GCM{salt 8..12}; TINK/CRUNCHY/RAW; ids incl. 0 and 2^32-1; entry points "
-             "aead.New(handle) and aead/subtle; rejected constructions (24-byte AES keys); pt/ad lengths on block boundaries up to 4 KiB "
+             "ChaCha20-Poly1305, XChaCha20-Poly1305, XAES-256-GCM{salt 8..12}, KMS envelope AEAD; TINK/CRUNCHY/RAW; ids incl. 0 and 2^32-1; "
+             "entry points aead.New(handle), per-key constructors, key managers and aead/subtle; rejected constructions (24-byte AES keys); pt/ad lengths on block boundaries up to 4 KiB "
              "(thorough: 256 KiB), ad nil/empty/non-empty; ")
 PROPS["C01"] = {
     "lean": ["TinkVerif.Props.C01"],
@@ -183,7 +183,20 @@ PROPS["C01"] = {
     "harness": [{"name": "c01", "args": ["-mode", "rt"], "pre": True}],
     "rule": AEAD_RULE + "(a) Go Encrypt → the Lean model re-encrypts with the nonce read from the ciphertext and must reproduce it byte for "
             "byte, and decrypts it; (b) the Lean model encrypts with a harness-chosen nonce (two-phase run) → Go Decrypt must return the "
-            "plaintext; nil/empty ad cross-checked; non-trivial = every op line, distinct by line hash",
+            "plaintext; nil/empty ad cross-checked; every ciphertext buffer is decrypted twice and must survive Decrypt unchanged. "
+            "Systematic grid: every parameter point (AES-GCM/-SIV key 16,32 × T/C/R; (X)ChaCha × T/C/R; XAES salt 8..12 × T/R; AES-CTR-HMAC aes "
+            "16,32 × iv 12..16 × 5 hashes × tags {10,11,16,digest-1,digest,2 random} (thorough: every tag 10..digest)) through aead.New(handle), "
+            "the per-key constructor (aesgcm.NewAEAD, xaesgcm.NewAEAD, registered primitive constructor) and, for RAW, the key manager "
+            "(registry.Primitive), cross-decrypting, with empty and 1-byte plaintexts at every point. Keysets of 2..4 RAW keys (same type / "
+            "mixed, optionally a prefixed key too): ciphertexts of every member (Tink-made and model-made) decrypt, incl. keys that are not the "
+            "first RAW candidate, twice from the same buffer. KMS envelope (NewKMSEnvelopeAEAD2, NewKMSEnvelopeAEADWithContext, keyset-level via "
+            "CreateKMSEnvelopeAEADKeyTemplate + registered KMS client with RAW/TINK/CRUNCHY key prefix, fakekms client) × every supported DEK "
+            "key type (random AES-CTR-HMAC parameters, all exported templates) × stub remote AEAD with wrapped-DEK length 0,1,2,28,4095,4096,"
+            "4097,5000 or a real AEAD (every type above, fakekms) as KEK: `A envser`/`A envparse` lines tie the framing to envelopeSerialize/"
+            "envelopeParse (Go's parse verdict observed at the stub), Encrypt rejections = the model's guard, Encrypt success ⇒ Decrypt success "
+            "(oracle), the payload decrypts under the DEK the stub saw via `A dec` (RAW DEK AEAD), the DEK matches the template, the KEK sees "
+            "empty ad, model-made envelopes (model-made payload, chosen wrapped length, model-wrapped DEK for real KEKs) decrypt in Go, the "
+            "other entry point decrypts the same envelope. AES-CTR-HMAC associated-data length block for sizes that cannot be run end to end: aesctrhmac.aadSizeInBits (hook VerifAADSizeInBits) and legacy aead/subtle.EncryptThenAuthenticate (recording MAC, identity cipher) on never-touched zero mappings of 0..2^32+1 bytes (2^29±1, 2^31, k·2^29, random) against `A aadbits n` = the closing block of EtM.macInput; non-trivial = every op line, distinct by line hash",
     "trusted_base": [KERNEL, TIE, PRIMS, "the raw-AEAD law (RawLaw) of stdlib AES-GCM / ChaCha20-Poly1305 is a hypothesis of the framing "
                      "theorems and is what the correspondence with the reference implementation exercises"],
     "assumptions": ["AES/SHA/ChaCha/GHASH/POLYVAL are reference primitives (KAT + agreement with Go), not proved",
@@ -206,7 +219,12 @@ PROPS["C02"] = {
     "rule": AEAD_RULE + "per valid ciphertext: 10 random mutations (flip/truncate/extend/drop/prefix/random/strip), flips and cuts at "
             "every field boundary, short random strings of every length up to prefix+nonce+tag+1, other variant's start byte, RAW↔prefixed "
             "confusion, 5 associated-data mutations; Go and model must agree (reject / plaintext); any acceptance of a mutated input and "
-            "any panic is a property-oracle violation; non-trivial = every op line, distinct by line hash",
+            "any panic is a property-oracle violation. The same stream (random part thinned) runs over the systematic parameter grid "
+            "(both entry points) and flips over multi-RAW-key keysets. KMS envelope (all entry points, DEK types, stub lengths / real KEKs as in "
+            "C01): flips and cuts in the length field, the encrypted DEK and the payload, length ±1, 0, to-the-end, past-the-end, 2^31.., 2^32-1, "
+            "4096/4097 with enough bytes behind, extension, short strings, another envelope's encrypted DEK, 5 associated-data mutations; the "
+            "stub must fail or Go must reject; model verdicts by `A envparse` (+ `A dec` under the DEK the stub returned). AES-CTR-HMAC associated-data length block for sizes that cannot be run end to end: aesctrhmac.aadSizeInBits (hook VerifAADSizeInBits) and legacy aead/subtle.EncryptThenAuthenticate (recording MAC, identity cipher) on never-touched zero mappings of 0..2^32+1 bytes (2^29±1, 2^31, k·2^29, random) against `A aadbits n` = the closing block of EtM.macInput; "
+            "non-trivial = every op line, distinct by line hash",
     "trusted_base": [KERNEL, TIE, PRIMS],
     "assumptions": ["H_mac: beyond the exact characterisation (plaintext is released iff the recomputed tag equals the transmitted tag), "
                     "rejection of modified inputs rests on the unforgeability of GHASH/Poly1305/HMAC/POLYVAL tags (cryptographic)",
